@@ -23,7 +23,8 @@ EXPLANATION = (
     "generator that otel_to_pv returns, hence save_events with otel2puml "
     "must be rejected and otel2pv must return before the learner); R14.5 "
     "the CLI's mapping config reaches both the saver and the loader, built "
-    "from the same file key. Equivalence of the diagrams is not decided.")
+    "from the same file key. Equivalence of the diagrams is not decided."
+    " Added: a record is rejected only for a missing key; the loader's validation model passes values through unchanged; R14.6 file listings take user paths literally.")
 NOT_DECIDED = ["equivalence of the resulting diagrams (C01-C03)"]
 ASSUMPTIONS: list[str] = []
 
